@@ -15,6 +15,7 @@ Generic part (any protocol / interface types, any priority and override tables):
 * `takeover_atomic`  a failing FacadeAppleTV.takeover leaves every relayer as it was (any
                      interface list: repeats, unknown objects);
 * `takeover_ok`      a successful one marks exactly the listed interfaces;
+* `takeover_held_fails`  taking over an interface somebody already holds fails;
 * `single_holder`    after ANY history of takeover/release calls (well-formed or not) every
                      relayer has at most one holder;
 * `holder_spec`      after any well-formed history the holder of an interface is exactly the
@@ -137,6 +138,16 @@ theorem takeover_ok (f f' : Facade I P) (p : P) (is : List (Option I)) (taken : 
       (∀ j, f' j = if j ∈ taken then { f j with takeover := [p] } else f j) :=
   takeover_ok_fac f f' p is taken h
 
+/-- an interface that is already held (by anybody) cannot be taken over: the call fails -/
+theorem takeover_held_fails (f : Facade I P) (p : P) (is : List (Option I)) (i : I)
+    (hi : some i ∈ is) (hheld : (f i).takeover ≠ []) : ∃ f', f.takeover p is = .error f' := by
+  cases h : f.takeover p is with
+  | error f' => exact ⟨f', rfl⟩
+  | ok r =>
+    obtain ⟨f', taken⟩ := r
+    obtain ⟨_, h2, h3, _⟩ := takeover_ok_fac f f' p is taken h
+    exact absurd (h3 i ((h2 i).mpr hi)) hheld
+
 theorem single_holder (f : Facade I P) (h0 : ∀ i, (f i).takeover = []) (ops : List (Op I P)) (i : I) :
     ((run (HState.init f) ops).fac i).takeover.length ≤ 1 :=
   single_run ops (HState.init f) (fun i => by simp [HState.init, h0 i]) i
@@ -188,6 +199,9 @@ example : wellFormed (HState.init exFacade) exOps = true := by decide
 example : (step (HState.init exFacade) (exOps.getD 0 (.release 0))).2 = .token 0 := by decide
 example : (step (run (HState.init exFacade) (exOps.take 1)) (.takeover 8 [some 3, some 1])).2 = .invalidState := by decide
 example : ((run (HState.init exFacade) (exOps.take 2)).fac 3).takeover = [] := by decide
+/-- the third takeover lists interface 4 twice: it fails and interface 4 stays free -/
+example : (step (run (HState.init exFacade) (exOps.take 2)) (.takeover 9 [some 4, some 4])).2 = .invalidState ∧
+    ((run (HState.init exFacade) (exOps.take 3)).fac 4).takeover = [] := by decide
 example : ((run (HState.init exFacade) exOps).fac 1).takeover = [8] := by decide
 example : Best ⟨[1, 2, 3], fun p => p != 2, [3]⟩ (fun p => p != 3) [1, 2, 3] 1 :=
   ⟨⟨rfl, rfl⟩, Or.inr ⟨by simp [Implements], [], [2, 3], rfl, by simp⟩⟩
